@@ -164,6 +164,10 @@ def find_value_printer(ctx):
 
 def run(ctx, rep):
     ix, T = ctx.ix, ctx.typer
+    from .common import check_falsy_zero
+    check_falsy_zero(ctx, rep, "C01.7", ['jaqalpaq.generator'], floor_positions=5)
+    from .c18 import fill_order
+    fill_order(ctx, rep, "C01.8", extra=" (the generator prints a gate's arguments as parameters.values(), positionally)")
     for a in SLY_ASSUMPTIONS:
         rep.assume(a)
     lx = extract_lexer(ix)
